@@ -1,5 +1,15 @@
+-- root of the library: every executable model module (core Lean only; this is what Driver.lean imports and what
+-- MANIFEST.setup_cmd builds).  Theory/ and Props/ are built per property by the checks.
 import MdpaxV.Model.Batch
 import MdpaxV.Model.Backup
 import MdpaxV.Model.Loop
 import MdpaxV.Model.SemiAsync
 import MdpaxV.Model.Solvers
+import MdpaxV.Model.Spaces
+import MdpaxV.Model.Matrices
+import MdpaxV.Model.Shipped
+import MdpaxV.Model.Probs
+import MdpaxV.Model.Store
+import MdpaxV.Model.Ckpt
+import MdpaxV.Model.Crash
+import MdpaxV.Model.Config
